@@ -145,3 +145,16 @@ pub fn request_json(m: &Msg) -> String {
     }
     format!("{{\"method\":\"{}\"}}", method_of(m.target))
 }
+
+/// upgraded stream: 5 arbitrary bytes, and how many trailing bytes the upgraded handler
+/// reports as unread (0 or 1)
+pub fn draw_upgraded<S: Src>(s: &mut S) -> ([u8; 5], usize) {
+    let mut d = [0u8; 5];
+    let mut i = 0;
+    while i < 5 {
+        d[i] = s.u8();
+        i += 1;
+    }
+    let keep = s.below(2) as usize;
+    (d, keep)
+}
